@@ -49,16 +49,17 @@ func init() {
 		},
 		"strconv.ParseFloat": func(x *Exec, fr *frame, fn *ssa.Function, a []Value) Value {
 			s := a[0].(Str)
-			if cint(x, a[1], "bitSize") != 64 {
-				x.unsupported("ParseFloat bitSize != 64")
-			}
+			bits := cint(x, a[1], "bitSize")
 			ts := x.ts
 			if cs, ok := s.Concrete(); ok {
-				f, err := strconv.ParseFloat(cs, 64)
+				f, err := strconv.ParseFloat(cs, bits)
 				if err != nil {
 					return Tuple{ts.FP(f), x.numError("ParseFloat", "error")}
 				}
 				return Tuple{ts.FP(f), Iface{}}
+			}
+			if bits != 64 {
+				x.unsupported("model limit: ParseFloat with bitSize != 64 on symbolic text")
 			}
 			sp := x.eng.ssaByPath["strconv"]
 			r := x.callFunction(sp.Func("special"), []Value{s}, nil).(Tuple)
